@@ -66,6 +66,10 @@ def check_revenue_fn(ctx) -> None:
     ctx.require(len(s.loops) == 1, 'CalculateRevenue: CashFlow store not in a single range loop')
     r = s.loops[0]
     i = Rat.atom(r.var)
+    # index and value are read over the named intermediates of the loop body (`k = C + y; usd = Energy[y] * Price[y]; CashFlow[k] = usd / 1e6`)
+    from gxstat.inline import inline_sequential as _iseq
+    import dataclasses as _dc
+    s = _dc.replace(s, index=_iseq(s.index, s.stmt), value=_iseq(s.value, s.stmt)) if _dc.is_dataclass(s) else s
     # compare in terms of the target index k = index(i): a loop over operating years writing CashFlow[C + y] from Energy[y] is the
     # same computation as a loop over k in [C, L + C) writing CashFlow[k] from Energy[k - C]
     idx = tr.tr(s.index)
@@ -103,6 +107,7 @@ def check_revenue_fn(ctx) -> None:
     except Unsupported as e:
         raise AnalysisError(f'CalculateRevenue: {e}')
     s2 = by['CummCashFlow'][0]
+    s2 = _dc.replace(s2, index=_iseq(s2.index, s2.stmt), value=_iseq(s2.value, s2.stmt)) if _dc.is_dataclass(s2) else s2
     where = f'{rel}:{s2.line}'
     r2 = s2.loops[0]
     j = Rat.atom(r2.var)
